@@ -54,13 +54,23 @@ pub fn c38_replay() {
     let mut flows_seen = 0;
     let mut keyed_logs = BTreeSet::new();
 
+    let fp = util::repo_fingerprint();
+    let mut cases = vec![];
     for name in ALL_CASES {
         if let Some(c) = &replay
             && c.get("flow").and_then(|f| f.as_str()) != Some(name)
         {
             continue;
         }
-        let case = build_case(name);
+        cases.push((name, build_case(name)));
+    }
+    if util::repo_fingerprint() != fp {
+        rep.require(false, "the repository under test changed while the simulator dylibs were being compiled; rerun");
+        rep.finish("aborted: repository changed during the build phase", false);
+        return;
+    }
+    for (name, case) in &cases {
+        let name = *name;
         flows_seen += 1;
         let inputs = replay_inputs(name);
         let jobs: Vec<(Inp, Vec<u8>)> = match &replay {
